@@ -35,7 +35,7 @@ BOUNDS = {'quick': 'lists <= 2 + windows, 3 include patterns, 3 component patter
 ASSUMPTIONS = ['astropy.table / astropy.io.fits are trusted to store and return float64 columns unchanged',
                'geometry is compared exactly (tolerance 0), angles in degrees exactly']
 
-CAT = ['point', 'circle', 'ellipse', 'circleannulus', 'ellipseannulus', 'rotbox', 'box', 'poly3', 'poly5', 'regpoly']
+CAT = ['point', 'circle', 'ellipse', 'circleannulus', 'ellipseannulus', 'rotbox', 'box', 'poly3', 'poly5', 'regpoly', 'ellipse_rad']
 NONREP = ['sky_circle', 'line', 'text', 'rectangleannulus', 'compound']
 INC_PATTERNS = ['absent', 'all_false', 'alt_False_True', 'alt_0_1', 'first_false']
 COMP_PATTERNS = ['absent', 'all', 'partial', 'partial_first', 'partial_desc', 'partial_mixed', 'all_desc']
@@ -59,6 +59,9 @@ def make(name, include='absent', component=None):
         return R.CirclePixelRegion(c(10.0, 11.5), 4.25, **kw)
     if name == 'ellipse':
         return R.EllipsePixelRegion(c(20.5, 21.0), 7.5, 3.0, angle=30 * u.deg, **kw)
+    if name == 'ellipse_rad':
+        # angle given in radians (a dyadic value): the table stores degrees
+        return R.EllipsePixelRegion(c(25.5, 26.0), 6.5, 2.5, angle=0.5 * u.rad, **kw)
     if name == 'circleannulus':
         return R.CircleAnnulusPixelRegion(c(30.0, 31.0), 2.5, 6.75, **kw)
     if name == 'ellipseannulus':
@@ -202,7 +205,8 @@ def check_list(res, names, incp, compp, medium, insert=None):
         if g['shape'] in ('point', 'circle', 'circleannulus', 'polygon'):
             g = dict(g)
             g['angle'] = None
-        diffs = RD.compare(e, g, 0.0, 0.0, 0.0)
+        # angles given in another unit are converted to degrees by the writer: one rounding step is allowed
+        diffs = RD.compare(e, g, 0.0, 0.0, 1e-12 if names[k] == 'ellipse_rad' else 0.0)
         if diffs:
             kind = 'roundtrip_geometry'
             if e['shape'] == 'polygon' and g.get('shape') == 'polygon' and len(g['coords']) > len(e['coords']) \
